@@ -57,6 +57,9 @@ def check(cx):
     r7 = cx.rule('R10.7', 'ban predicate body (imported)', floor=2, kind='dependency')
     depends(cx, r7, 'C07', ('R7.1b',), 'banned() = ban match without exception match')
     depends(cx, r7, 'C14', ('R14.4',), 'masks are matched against the unmodified nick!user@host', only=r'^banned\|')
+    # a ban decides who may speak only as far as the matcher decides it: the structural part of C14 about the matcher itself
+    depends(cx, r7, 'C14', ('R14.5', 'R14.2'), 'the matcher behind +b / +e compares characters and terminates',
+            only=r'^(match_wildcard|starts_single_wilcards)\|')
 
 
     # ---- NOTICE silence
